@@ -124,7 +124,9 @@ func (s *c15Side) record(w *c15World, e mEnt) error {
 		for _, t := range e.targets {
 			ids = append(ids, s.ids[t])
 		}
-		ent = rsl.NewAnnotationEntry(ids, e.skip, "note")
+		// the message is unique per recording: two repositories recording byte-identical entries on the same
+		// parent within one second would produce one and the same commit, i.e. a shared entry
+		ent = rsl.NewAnnotationEntry(ids, e.skip, fmt.Sprintf("note %s %d", filepath.Base(s.dir), len(s.ents)))
 	}
 	rsl.VerifResetCache()
 	if err := ent.Commit(s.gi, false); err != nil {
